@@ -2,4 +2,4 @@
 # usage: tools/run_all.sh [parallelism]  - every claimed property's quick check on /repo's working tree; summary lines to stdout
 cd /verif
 P=${1:-3}
-printf "%s\n" C05 C10 C01 C03 C04 C06 C07 C09 C12 C17 C19 C20 | xargs -P "$P" -I{} bash -c './check {} quick > /var/tmp/runall-{}.log 2>&1; echo "{} exit=$? $(grep -E "^\[{}/quick\]" /var/tmp/runall-{}.log | tail -1)"'
+printf "%s\n" C05 C10 C01 C03 C04 C06 C07 C09 C12 C15 C17 C19 C20 | xargs -P "$P" -I{} bash -c './check {} quick > /var/tmp/runall-{}.log 2>&1; echo "{} exit=$? $(grep -E "^\[{}/quick\]" /var/tmp/runall-{}.log | tail -1)"'
